@@ -39,6 +39,7 @@ type specEnv struct {
 type absIndex struct {
 	V       string
 	baseKey string
+	inOld   bool
 }
 
 func (env *specEnv) withState(st *State) *specEnv {
@@ -500,7 +501,7 @@ func (f *Frame) specQuant(n SQuant, env *specEnv) Val {
 						}
 						ne.absIdx = m
 					}
-					ne.absIdx[v.Name] = &absIndex{V: vn, baseKey: fmt.Sprintf("%#v", base)}
+					ne.absIdx[v.Name] = &absIndex{V: vn, baseKey: fmt.Sprintf("%#v", base), inOld: inOld}
 					absPats = append(absPats, fmt.Sprintf("(select %s %s)", sv.arr, vn))
 					ne.bound[v.Name] = Val{T: fmt.Sprintf("(- %s %s)", vn, sv.off), Typ: mathInt}
 					continue
@@ -590,7 +591,7 @@ func (f *Frame) specIndex(n SIndex, env *specEnv) Val {
 	if sv, ok := f.view(x, env); ok {
 		// absolute-index form
 		if vname, c, ok := simpleIndex(n.I); ok {
-			if ai := env.absIdx[vname]; ai != nil && ai.baseKey == fmt.Sprintf("%#v", n.X) {
+			if ai := env.absIdx[vname]; ai != nil && ai.baseKey == fmt.Sprintf("%#v", n.X) && ai.inOld == env.inOld {
 				idx := ai.V
 				if c != "" {
 					idx = fmt.Sprintf("(+ %s %s)", ai.V, c)
@@ -769,6 +770,10 @@ func (f *Frame) specCall(n SCall, env *specEnv) Val {
 		ty := n.Args[1].(SType)
 		gt := f.resolveType(ty.Text)
 		return Val{T: fmt.Sprintf("(i-ref %s)", x.T), Typ: gt}
+	case "asStr": // asStr(b): the string a byte slice was converted from (b := []byte(s))
+		x := f.specTerm(n.Args[0], env)
+		e.declFun("bstr", []string{sInt}, sStr)
+		return Val{T: fmt.Sprintf("(bstr (s-ref %s))", x.T), Typ: types.Typ[types.String]}
 	case "iref": // iref(iface): the reference held by an interface value
 		x := f.specTerm(n.Args[0], env)
 		return Val{T: fmt.Sprintf("(i-ref %s)", x.T), Typ: mathInt}
@@ -903,6 +908,10 @@ func (f *Frame) specUser(sf *SpecFunc, n SCall, env *specEnv) Val {
 	if rt != nil {
 		rs = e.tt().sortOf(rt)
 	}
+	if strings.HasPrefix(sf.Result, "map[") {
+		rs = ghostTypeSort(sf.Result)
+		rt = ghostGoType(sf.Result)
+	}
 	e.declFun("sp_"+sf.Name, argSorts, rs)
 	if len(args) == 0 {
 		return Val{T: "sp_" + sf.Name, Typ: rt}
@@ -976,11 +985,10 @@ func soleIndexBase(body SExpr, v string) (SExpr, bool, bool) {
 				}
 				k := fmt.Sprintf("%#v", n.X)
 				if baseKey == "" {
+					// the first simple use decides the absolute base; uses of other bases stay relative
 					baseKey, base = k, n.X
 					baseOld = oldDepth > 0
 					found = true
-				} else if baseKey != k || baseOld != (oldDepth > 0) {
-					ok = false
 				}
 			}
 		case SSlice:
